@@ -873,9 +873,32 @@ pub fn run_c10(toks: &[&str]) -> Lines {
     let want_files_d: Vec<MDBFileInfo> =
         b.files.iter().filter(|f| !a.files.iter().any(|x| x.metadata.file_hash == f.metadata.file_hash)).cloned().collect();
 
+    // the same file in both inputs under two different segment lists (the same bytes deduplicated differently): known finding K2
+    // (DESIGN.md 12.3) -- the code assumes equal lists (a debug assertion says so) and, without it, grafts the verification
+    // entries of one list onto the segments of the other.  What such a case shows is reported under this marker; anything
+    // else it shows is reported without it.
+    let reseg = a.files.iter().any(|x| b.files.iter().any(|y| x.metadata.file_hash == y.metadata.file_hash && x.segments.len() != y.segments.len()));
+    const K2: &str = "[same-file-other-segmentation: union of two records of one file whose segment lists differ]";
+    let mut k2: Vec<String> = vec![];
+    let assumed = |p: &Box<dyn std::any::Any + Send>| {
+        let m = p.downcast_ref::<String>().cloned().or_else(|| p.downcast_ref::<&str>().map(|x| x.to_string())).unwrap_or_default();
+        m.contains("num entries for same hash don't match")
+    };
     // on-disk union
-    let mut u = vec![];
-    let iu = shard_set_union(&ia, &mut Cursor::new(&ba), &ib, &mut Cursor::new(&bb), &mut u).unwrap();
+    let du = std::panic::catch_unwind(std::panic::AssertUnwindSafe(|| {
+        let mut u = vec![];
+        let iu = shard_set_union(&ia, &mut Cursor::new(&ba), &ib, &mut Cursor::new(&bb), &mut u).unwrap();
+        (u, iu)
+    }));
+    match du {
+        Err(p) => {
+            if reseg && assumed(&p) {
+                k2.push("disk-union: debug assertion 'num entries for same hash don't match'".into());
+            } else {
+                std::panic::resume_unwind(p);
+            }
+        },
+        Ok((u, iu)) => {
     out.push(("obs", format!("disk-union {}", describe_bytes(&u, &iu))));
     check_output("disk-union", &u, &want_files_u, &want_cas_u, &mut why);
     {
@@ -895,6 +918,8 @@ pub fn run_c10(toks: &[&str]) -> Lines {
             }
         }
     }
+        },
+    }
     // on-disk difference
     let mut d = vec![];
     let id = shard_set_difference(&ia, &mut Cursor::new(&ba), &ib, &mut Cursor::new(&bb), &mut d).unwrap();
@@ -907,12 +932,22 @@ pub fn run_c10(toks: &[&str]) -> Lines {
         }
     }
     // in-memory
-    let mu = a.mem.union(&b.mem).unwrap();
-    let (bmu, imu) = serialize(&mu);
-    out.push(("obs", format!("mem-union {} acct={}", describe_bytes(&bmu, &imu), mu.shard_file_size())));
-    check_output("mem-union", &bmu, &want_files_u, &want_cas_u, &mut why);
-    if mu.shard_file_size() != bmu.len() as u64 {
-        why.push(format!("mem-union-size-accounting:{}!={}", mu.shard_file_size(), bmu.len()));
+    match std::panic::catch_unwind(std::panic::AssertUnwindSafe(|| a.mem.union(&b.mem).unwrap())) {
+        Err(p) => {
+            if reseg && assumed(&p) {
+                k2.push("mem-union: debug assertion 'num entries for same hash don't match'".into());
+            } else {
+                std::panic::resume_unwind(p);
+            }
+        },
+        Ok(mu) => {
+            let (bmu, imu) = serialize(&mu);
+            out.push(("obs", format!("mem-union {} acct={}", describe_bytes(&bmu, &imu), mu.shard_file_size())));
+            check_output("mem-union", &bmu, &want_files_u, &want_cas_u, &mut why);
+            if mu.shard_file_size() != bmu.len() as u64 {
+                why.push(format!("mem-union-size-accounting:{}!={}", mu.shard_file_size(), bmu.len()));
+            }
+        },
     }
     let md = a.mem.difference(&b.mem).unwrap();
     let (bmd, imd) = serialize(&md);
@@ -921,7 +956,18 @@ pub fn run_c10(toks: &[&str]) -> Lines {
     if md.shard_file_size() != bmd.len() as u64 {
         why.push(format!("mem-diff-size-accounting:{}!={}", md.shard_file_size(), bmd.len()));
     }
-    out.push(("orc", if why.is_empty() { "ok".to_string() } else { format!("FAIL {}", why.join(",")) }));
+    if reseg {
+        // what the unions of such a pair get wrong belongs to K2; the differences are judged as always
+        let (un, rest): (Vec<String>, Vec<String>) = why.into_iter().partition(|w| w.starts_with("disk-union") || w.starts_with("mem-union"));
+        k2.extend(un);
+        why = rest;
+    }
+    if !k2.is_empty() {
+        out.push(("orc", format!("FAIL {} {}", K2, k2.join(","))));
+    }
+    if !why.is_empty() || k2.is_empty() {
+        out.push(("orc", if why.is_empty() { "ok".to_string() } else { format!("FAIL {}", why.join(",")) }));
+    }
     out
 }
 
